@@ -25,7 +25,7 @@ def main():
     wt = f"/tmp/seed-{tag}"
     out = f"/tmp/seed-{tag}-out"
     anchors = prop.get("anchors", {})
-    print(f"""You are helping to evaluate a verification effort by playing the adversary. You work on the Rust workspace flyingrobots/echo ("Deterministic graph-rewriting simulation engine (WARP) with canonical scheduling, footprint-based parallel execution, hash-chained tick patches, replay, and session/wire codecs"). A scratch git worktree of it has been created for you at {wt} — work ONLY there (never touch /repo, never read or write anything under /verif, and do not look at other /tmp/seed-* or /tmp/sb-* directories). The sandbox is offline: every cargo command needs `--offline` (e.g. `cargo test -p warp-core --offline`); 16 cores are shared with other jobs, so build only what you need while iterating.
+    print(f"""You are helping to evaluate a verification effort by playing the adversary. You work on the Rust workspace flyingrobots/echo ("Deterministic graph-rewriting simulation engine (WARP) with canonical scheduling, footprint-based parallel execution, hash-chained tick patches, replay, and session/wire codecs"). A scratch git worktree of it has been created for you at {wt} — work ONLY there (never touch /repo, never read or write anything under /verif, and do not look at other /tmp/seed-* or /tmp/sb-* directories). The sandbox is offline: every cargo command needs `--offline` (e.g. `cargo test -p warp-core --offline`); 16 cores and a small disk are shared with other jobs, so build only what you need while iterating and, BEFORE your first cargo command, `export CARGO_INCREMENTAL=0 CARGO_PROFILE_DEV_DEBUG=0 CARGO_PROFILE_TEST_DEBUG=0` in every shell you use (keeps the build directory several times smaller). NEVER use `git stash` (the stash is shared between all worktrees of the repository and other people are working in sibling worktrees): to switch between 'with change' and 'without change' use `git diff > /tmp/seed-{tag}-change.diff`, `git apply -R /tmp/seed-{tag}-change.diff`, `git apply /tmp/seed-{tag}-change.diff`.
 
 The semantic property under attack:
 
@@ -41,8 +41,8 @@ Required steps:
 1. Read the anchored code, pick the change, apply it in {wt}.
 2. Write a DEMONSTRATION: a new test file (e.g. {wt}/crates/<crate>/tests/seed_demo_{tag.lower()}.rs) or small program that exercises the real public API and FAILS with your change and PASSES without it. The demonstration must show the property itself being violated (a wrong result accepted, different outputs for inputs the property says must agree, a crash, …), not merely that some code differs.
 3. Verify, and record the exact commands and outcomes:
-   a. with the change: the workspace builds and the EXISTING suite passes: `cd {wt} && cargo nextest run --workspace --no-fail-fast --test-threads 8 --offline` (fallback `cargo test --workspace --no-fail-fast --offline`). Your new demo test is expected to be the only failure (or keep the demo out of the tree while running the suite). If an existing test fails because of your change, pick a different change. (Compare with a clean run if you see failures you believe are pre-existing.)
-   b. with the change: the demo fails; without the change (`git stash` / revert just the source edit): the demo passes.
+   a. with the change: the workspace builds and the EXISTING suite passes: `cd {wt} && cargo nextest run --workspace --no-fail-fast --test-threads 8 --offline` (fallback `cargo test --workspace --no-fail-fast --offline`). Your new demo test is expected to be the only failure (or keep the demo out of the tree while running the suite). If an existing test fails because of your change, pick a different change. Known to fail on the UNCHANGED tree in this sandbox (ignore them): the 7 `echo-wesley-gen::generation::*` tests that spawn a nested cargo build (offline registry) and `warp-core::external_consumer_contract_fixture_tests inverse_intent_resolves_one_admitted_transition_after_restart`; 2389 tests pass on the unchanged tree.
+   b. with the change: the demo fails; without the change (`git apply -R` of just the source edit): the demo passes.
 4. Write your results to {out}/ (create it): `patch.diff` = `git diff` of the production-source change ONLY (no demo file in it; must apply with `git apply` on a clean checkout of the same commit); the demo file(s) copied alongside, plus `demo.sh` — a script taking the worktree path as $1 that installs the demo file into the tree and runs it (exit 0 = property holds / demo passes, non-zero = demo fails); and `meta.json` with keys: property ("{pid}"), title (one line), what_it_breaks, why_tests_pass, needs_to_manifest (the specific input / sequence / fault / interleaving / size needed), files_changed, commands_run (with outcomes, incl. test-suite totals).
 5. Leave the worktree in place with your change applied and the demo file present (the evaluator will re-run your steps there), but do not commit anything.
 
